@@ -433,14 +433,15 @@ def _planner(ctx, prog, dual):
             r = rvs[0]
             found = show(r, maxdepth=8)
             chain = []
-            while isinstance(r, tuple) and r[0] in ('call', 'cast'):
-                if r[0] == 'cast':
+            while isinstance(r, tuple) and r[0] in ('call', 'cast', 'fld', 'as'):
+                if r[0] in ('cast', 'fld', 'as'):
+                    # (.. as Some).0: the payload bound by `let Some(c) = .. else { panic!() }` / `if let`
                     r = strip(r[1])
                     continue
                 chain.append(cname(r[1]))
                 r = strip(r[2])
             ok = 'Constraints::random_angles' in chain and 'Kinematics::constraints' in chain and all(
-                c.split('::')[-1] in ('to_vec', 'random_angles', 'expect', 'unwrap', 'as_ref', 'constraints', 'deref', 'into', 'to_owned') for c in chain)
+                c.split('::')[-1] in ('to_vec', 'random_angles', 'expect', 'unwrap', 'as_ref', 'constraints', 'deref', 'into', 'to_owned', 'from') for c in chain)
     ctx.check(ok, 'R13.2', 'sampler', pp.where(bi), pp.path, 'random samples must come from constraints().random_angles() of the planning robot', found=found, detail=found or '')
     # R13.5 conversion
     conv = [b for b in prog.bodies.values() if b.path.startswith('rrt::') and b.kind != 'Closure' and len(util.sig(b)) == 3 and 'Vec<f64>>' in util.sig(b)[2] and 'Result' in util.sig(b)[2]]
